@@ -79,7 +79,13 @@ impl Context {
 			}
 			heap.push((conf, k));
 		});
-		heap.sort_by(|a, b| b.0.partial_cmp(&a.0).unwrap_or(Ordering::Equal));
+		// Bindings are collected in hash iteration order: equally similar names are ordered by name,
+		// so that the message does not change from run to run
+		heap.sort_by(|a, b| {
+			b.0.partial_cmp(&a.0)
+				.unwrap_or(Ordering::Equal)
+				.then_with(|| (&a.1 as &str).cmp(&b.1 as &str))
+		});
 
 		bail!(VariableIsNotDefined(
 			name,
